@@ -186,7 +186,7 @@ Lemma wf_model_inv : forall L m, wf_modelb L m = true ->
                    lens_ok (m_sizes m) (l_arrays L) plan (m_arrays m) = true) /\
   lens_eq (l_structs L) (m_structs m) = true /\ zlen (encode L m) <= INT_MAX /\
   sz (m_sizes m) (l_mapidx L) = sz (alloc_sizes L (m_sizes m)) (l_mapidx L) /\
-  validate_refs (l_ref64 L) m 0 (l_refs L) = None.
+  validate_all L m = None.
 Proof.
   intros L m H. unfold wf_modelb in H.
   repeat (apply andb_prop in H; destruct H as [H ?]).
@@ -196,7 +196,7 @@ Proof.
     exists nb, plan. auto.
   - apply Z.leb_le. assumption.
   - apply Z.eqb_eq. assumption.
-  - destruct (validate_refs (l_ref64 L) m 0 (l_refs L)); [discriminate | reflexivity].
+  - destruct (validate_all L m); [discriminate | reflexivity].
 Qed.
 
 Lemma wf_layout_inv : forall L, wf_layout L = true ->
@@ -345,13 +345,13 @@ Qed.
 Lemma decode_arrays_ok_inv : forall L len fsz plan p3 r3 sblobs m rds wrs,
   decode_arrays L len fsz plan p3 r3 sblobs = (Ok m, rds, wrs) ->
   exists r4 blobs, read_arrays fsz len p3 r3 0 (l_arrays L) plan = (RA_ok len r4 blobs, rds, wrs) /\
-                   m = mkModel fsz sblobs blobs /\ validate_refs (l_ref64 L) m 0 (l_refs L) = None.
+                   m = mkModel fsz sblobs blobs /\ validate_all L m = None.
 Proof.
   unfold decode_arrays. intros.
   destruct (read_arrays fsz len p3 r3 0 (l_arrays L) plan) as [[res rd1] wr1] eqn:E.
   destruct res; try discriminate.
   destruct (Z.eqb_spec ptr len); cbn [negb] in H; [|discriminate]. subst ptr.
-  destruct (validate_refs (l_ref64 L) (mkModel fsz sblobs blobs) 0 (l_refs L)) eqn:Ev; [discriminate|].
+  destruct (validate_all L (mkModel fsz sblobs blobs)) eqn:Ev; [discriminate|].
   inversion H; subst. eauto.
 Qed.
 
@@ -363,7 +363,7 @@ Lemma decode_body_ok_inv : forall L len fsz p2 r2 m rds wrs nb,
     exists sblobs r3 rd3 rd4 r4 blobs,
       take_list (l_structs L) p2 r2 = (sblobs, p2 + zsum (l_structs L), r3, rd3) /\
       read_arrays fsz len (p2 + zsum (l_structs L)) r3 0 (l_arrays L) plan = (RA_ok len r4 blobs, rd4, wrs) /\
-      rds = rd3 ++ rd4 /\ m = mkModel fsz sblobs blobs /\ validate_refs (l_ref64 L) m 0 (l_refs L) = None.
+      rds = rd3 ++ rd4 /\ m = mkModel fsz sblobs blobs /\ validate_all L m = None.
 Proof.
   unfold decode_body. intros.
   destruct (make_model L fsz) as [r | [nb0 plan]]; [discriminate|].
@@ -490,7 +490,7 @@ Proof.
   destruct (read_arrays (file_sizes L b) (zlen b) p3 r3 0 (l_arrays L) plan) as [[res rd1] wr1] eqn:E.
   destruct res.
   - destruct (negb (ptr =? zlen b)); [discriminate|].
-    destruct (validate_refs (l_ref64 L) (mkModel (file_sizes L b) sblobs blobs) 0 (l_refs L)); discriminate.
+    destruct (validate_all L (mkModel (file_sizes L b) sblobs blobs)); discriminate.
   - discriminate.
   - eapply read_arrays_abort; eauto.
 Qed.
@@ -610,7 +610,7 @@ Proof.
   destruct (read_arrays fsz len p3 r3 0 (l_arrays L) plan) as [[res rd1] wr1]. cbn [fst snd] in Hr.
   destruct res; [|assumption|assumption].
   destruct (negb (ptr =? len)); [assumption|].
-  destruct (validate_refs (l_ref64 L) (mkModel fsz sblobs blobs) 0 (l_refs L)); assumption.
+  destruct (validate_all L (mkModel fsz sblobs blobs)); assumption.
 Qed.
 
 Lemma decode_body_reads : forall L len fsz p2 r2, wf_layout L = true ->
@@ -651,7 +651,6 @@ Proof.
   unfold read_ok. cbn [fst snd]. lia.
 Qed.
 
-(* the blobs of an accepted model are exactly the slices of the buffer named by the reads *)
 (* ================================================================== writes stay inside the model buffer *)
 Definition write_ok (off nb : Z) (w : wr) : Prop :=
   let '(mo, n, q) := w in n = q /\ off <= mo /\ 0 <= n /\ mo + n <= nb.
@@ -793,7 +792,7 @@ Proof.
   destruct (read_arrays fsz len p3 r3 0 (l_arrays L) plan) as [[res rd1] wr1]. cbn [snd] in Hw.
   destruct res.
   - destruct (negb (ptr =? len)); [exact Hw|].
-    destruct (validate_refs (l_ref64 L) (mkModel fsz sblobs blobs) 0 (l_refs L)); exact Hw.
+    destruct (validate_all L (mkModel fsz sblobs blobs)); exact Hw.
   - exact Hw.
   - exact Hw.
 Qed.
@@ -845,8 +844,177 @@ Proof.
   intros L b m H64 D r Hin. destruct (decode_ok_inv _ _ _ D) as (_ & _ & _ & rds & wrs & nb & Eb).
   apply decode_body_ok_inv in Eb.
   destruct Eb as (plan & _ & _ & _ & _ & sblobs & r3 & rd3 & rd4 & r4 & blobs & _ & _ & _ & _ & Hv).
-  rewrite H64 in Hv. destruct (validate_refs_none _ _ _ _ Hv r Hin) as (j' & Hc).
+  unfold validate_all in Hv.
+  destruct (validate_refs (l_ref64 L) m 0 (l_refs L)) eqn:Hv'; [discriminate|].
+  rewrite H64 in Hv'. destruct (validate_refs_none _ _ _ _ Hv' r Hin) as (j' & Hc).
   eapply check_pairs_none; eauto.
+Qed.
+
+Lemma validate_reqs_none : forall m reqs j, validate_reqs m j reqs = None ->
+  forall q, In q reqs -> Forall (fun a => 0 <= a) (req_adrs m q).
+Proof.
+  induction reqs; cbn [validate_reqs]; intros j H q Hin; [destruct Hin|].
+  destruct (forallb (fun a0 => 0 <=? a0) (req_adrs m a)) eqn:E; [|discriminate].
+  destruct Hin as [-> | Hin]; [|eapply IHreqs; eauto].
+  apply Forall_forall. intros x Hx. rewrite forallb_forall in E. apply Z.leb_le. auto.
+Qed.
+
+Theorem validate_required : forall L b m, decode L b = Ok m ->
+  forall q, In q (l_reqs L) -> Forall (fun a => 0 <= a) (req_adrs m q).
+Proof.
+  intros L b m D q Hin. destruct (decode_ok_inv _ _ _ D) as (_ & _ & _ & rds & wrs & nb & Eb).
+  apply decode_body_ok_inv in Eb.
+  destruct Eb as (plan & _ & _ & _ & _ & sblobs & r3 & rd3 & rd4 & r4 & blobs & _ & _ & _ & _ & Hv).
+  unfold validate_all in Hv.
+  destruct (validate_refs (l_ref64 L) m 0 (l_refs L)); [discriminate|].
+  eapply validate_reqs_none; eauto.
+Qed.
+
+(* ================================================================== an accepted buffer is the file of the loaded model *)
+Definition is_byte (b : Z) : Prop := 0 <= b < 256.
+
+Lemma le_enc_dec_u : forall l, Forall is_byte l -> le_enc (length l) (le_dec_u l) = l.
+Proof.
+  induction 1; [reflexivity|]. cbn [length le_enc le_dec_u]. unfold is_byte in H.
+  replace (x + 256 * le_dec_u l) with (x + le_dec_u l * 256) by ring.
+  rewrite Z.mod_add, Z.div_add by lia. rewrite Z.mod_small, Z.div_small by lia. cbn [Z.add].
+  now rewrite IHForall.
+Qed.
+
+Lemma le_enc_shift : forall n z k, le_enc n (z + k * 256 ^ Z.of_nat n) = le_enc n z.
+Proof.
+  induction n; intros; [reflexivity|]. cbn [le_enc].
+  replace (256 ^ Z.of_nat (S n)) with (256 * 256 ^ Z.of_nat n) by (rewrite Nat2Z.inj_succ, Z.pow_succ_r; lia).
+  f_equal.
+  - replace (z + k * (256 * 256 ^ Z.of_nat n)) with (z + (k * 256 ^ Z.of_nat n) * 256) by ring.
+    apply Z.mod_add. lia.
+  - replace (z + k * (256 * 256 ^ Z.of_nat n)) with (z + (k * 256 ^ Z.of_nat n) * 256) by ring.
+    rewrite Z.div_add by lia. apply IHn.
+Qed.
+
+Lemma le_enc_dec_s : forall n l, length l = n -> Forall is_byte l -> le_enc n (le_dec_s n l) = l.
+Proof.
+  intros n l Hn Hb. unfold le_dec_s.
+  destruct (le_dec_u l <? 2 ^ (8 * Z.of_nat n - 1)).
+  - subst n. now apply le_enc_dec_u.
+  - destruct n.
+    + destruct l; [reflexivity | discriminate].
+    + replace (le_dec_u l - 2 * 2 ^ (8 * Z.of_nat (S n) - 1)) with (le_dec_u l + (-1) * 256 ^ Z.of_nat (S n)).
+      * rewrite le_enc_shift. rewrite <- Hn. now apply le_enc_dec_u.
+      * replace (256 ^ Z.of_nat (S n)) with (2 * 2 ^ (8 * Z.of_nat (S n) - 1)); [ring|].
+        rewrite <- Z.pow_succ_r by lia. replace (Z.succ (8 * Z.of_nat (S n) - 1)) with (8 * Z.of_nat (S n)) by lia.
+        change 256 with (2 ^ 8). rewrite <- Z.pow_mul_r by lia. reflexivity.
+Qed.
+
+Lemma Forall_firstn : forall A (P : A -> Prop) n l, Forall P l -> Forall P (firstn n l).
+Proof. induction n; destruct l; simpl; intros; try constructor; inversion H; auto. Qed.
+Lemma Forall_skipn : forall A (P : A -> Prop) n l, Forall P l -> Forall P (skipn n l).
+Proof. induction n; destruct l; simpl; intros; auto. inversion H; auto. Qed.
+
+(* re-encoding the ints read from cnt chunks of w bytes gives back those bytes *)
+Lemma enc_ints_chunks : forall w cnt l, (w * cnt <= length l)%nat -> Forall is_byte l ->
+  enc_ints w (ints w cnt l) = firstn (w * cnt) l.
+Proof.
+  induction cnt; intros.
+  - rewrite Nat.mul_0_r. reflexivity.
+  - unfold ints, enc_ints in *. cbn [chunks map concat].
+    rewrite IHcnt by (try (rewrite skipn_length; lia); apply Forall_skipn; assumption).
+    rewrite le_enc_dec_s by (try (rewrite firstn_length; lia); apply Forall_firstn; assumption).
+    replace (w * S cnt)%nat with (w + w * cnt)%nat by lia.
+    rewrite <- (firstn_skipn w l) at 3. rewrite firstn_app.
+    rewrite firstn_length, Nat.min_l by lia.
+    rewrite (firstn_all2 (firstn w l)) by (rewrite firstn_length; lia).
+    replace (w + w * cnt - w)%nat with (w * cnt)%nat by lia. reflexivity.
+Qed.
+
+Lemma take_list_split : forall ns ptr rest bl p r rds, take_list ns ptr rest = (bl, p, r, rds) ->
+  concat bl ++ r = rest.
+Proof.
+  induction ns; cbn [take_list]; intros.
+  - inversion H. reflexivity.
+  - unfold take in H.
+    destruct (take_list ns (ptr + a) (skipn (Z.to_nat a) rest)) as [[[b1 p1] r1] rd1] eqn:E.
+    inversion H; subst. apply IHns in E. cbn [concat]. rewrite <- app_assoc, E. apply firstn_skipn.
+Qed.
+
+Lemma zlen_skipn : forall (l : list Z) n, 0 <= n <= zlen l -> zlen (skipn (Z.to_nat n) l) = zlen l - n.
+Proof. intros. unfold zlen in *. rewrite skipn_length. lia. Qed.
+
+Lemma take_list_len : forall ns ptr rest bl p r rds len,
+  forallb (fun n => 0 <=? n) ns = true -> ptr + zsum ns <= len -> zlen rest = len - ptr ->
+  take_list ns ptr rest = (bl, p, r, rds) -> zlen r = len - p.
+Proof.
+  induction ns; cbn [take_list]; intros.
+  - inversion H2; subst. assumption.
+  - change (zsum (a :: ns)) with (a + zsum ns) in H0.
+    simpl in H. apply andb_prop in H. destruct H as [Ha Hr]. apply Z.leb_le in Ha.
+    pose proof (zsum_nonneg _ Hr). unfold take in H2.
+    destruct (take_list ns (ptr + a) (skipn (Z.to_nat a) rest)) as [[[b1 p1] r1] rd1] eqn:E.
+    inversion H2; subst. eapply IHns in E; eauto; [lia|]. rewrite zlen_skipn by lia. lia.
+Qed.
+
+Lemma read_arrays_split : forall fsz len arrs plan ptr rest k p4 r4 blobs rds wrs,
+  0 <= ptr -> zlen rest = len - ptr -> len <= INT_MAX ->
+  read_arrays fsz len ptr rest k arrs plan = (RA_ok p4 r4 blobs, rds, wrs) ->
+  concat blobs ++ r4 = rest /\ zlen r4 = len - p4.
+Proof.
+  induction arrs; cbn [read_arrays]; intros.
+  - inversion H2; subst. split; [reflexivity | assumption].
+  - pose proof (Z.mod_pos_bound (arr_bytes fsz a) W64 ltac:(unfold W64; lia)) as Hn.
+    destruct (Z.gtb_spec ((ptr + arr_bytes fsz a mod W64) mod W64) len); [discriminate|].
+    destruct (Z.leb_spec W31 (arr_bytes fsz a mod W64)); [discriminate|].
+    pose proof (zlen_nonneg _ rest).
+    rewrite Z.mod_small in H3 by (unfold W31, W64, INT_MAX in *; lia).
+    unfold take in H2. destruct (hd (0, 0) plan) as [mo q].
+    destruct (read_arrays fsz len (ptr + arr_bytes fsz a mod W64) (skipn (Z.to_nat (arr_bytes fsz a mod W64)) rest)
+                (S k) arrs (tl plan)) as [[res rd1] wr1] eqn:E.
+    destruct res; inversion H2; subst.
+    apply IHarrs in E; [|lia| rewrite zlen_skipn by lia; lia | assumption].
+    destruct E as [E1 E2]. split; [|assumption].
+    cbn [concat]. rewrite <- app_assoc, E1. apply firstn_skipn.
+Qed.
+
+Lemma zlen_zero_nil : forall (l : list Z), zlen l = 0 -> l = [].
+Proof. destruct l; [reflexivity|]. rewrite zlen_cons. pose proof (zlen_nonneg _ l). lia. Qed.
+
+(* an accepted buffer is exactly the file mj_saveModel writes for the loaded model *)
+Theorem accept_resave_identical : forall L b m, wf_layout L = true -> zlen b <= INT_MAX ->
+  Forall is_byte b -> decode L b = Ok m -> encode L m = b.
+Proof.
+  intros L b m HL Hmax Hb D.
+  destruct (wf_layout_inv _ HL) as (_ & _ & Hs0 & _ & _).
+  destruct (decode_ok_inv _ _ _ D) as (Hlen & Hh & Hs & rds & wrs & nb & Eb).
+  apply decode_body_ok_inv in Eb.
+  destruct Eb as (plan & _ & _ & _ & Hst & sblobs & r3 & rd3 & rd4 & r4 & blobs & Etl & Er & _ & Em & _).
+  pose proof (zlen_nonneg _ (l_hdr L)).
+  assert (Hhb : 0 <= hdr_bytes L) by (unfold hdr_bytes; lia).
+  assert (Hsb : 0 <= sizes_bytes L) by (unfold sizes_bytes; lia).
+  set (b1 := skipn (Z.to_nat (hdr_bytes L)) b) in *.
+  set (r2 := skipn (Z.to_nat (sizes_bytes L)) b1) in *.
+  assert (Hb1 : zlen b1 = zlen b - hdr_bytes L) by (apply zlen_skipn; lia).
+  assert (Hr2 : zlen r2 = zlen b - (hdr_bytes L + sizes_bytes L)) by (unfold r2; rewrite zlen_skipn; lia).
+  unfold take in Etl, Er. cbn [snd] in Etl. fold b1 in Etl. fold r2 in Etl.
+  pose proof (take_list_split _ _ _ _ _ _ _ Etl) as E2.
+  pose proof (take_list_len _ _ _ _ _ _ _ (zlen b) Hs0 Hst Hr2 Etl) as L3.
+  pose proof (zsum_nonneg _ Hs0).
+  assert (Hp3 : 0 <= hdr_bytes L + sizes_bytes L + zsum (l_structs L)) by lia.
+  destruct (read_arrays_split _ _ _ _ _ _ _ _ _ _ _ _ Hp3 L3 Hmax Er) as [E3 L4].
+  rewrite Z.sub_diag in L4. apply zlen_zero_nil in L4. subst r4. rewrite app_nil_r in E3.
+  (* header and sizes *)
+  assert (E0 : enc_ints 4 (l_hdr L) = firstn (Z.to_nat (hdr_bytes L)) b).
+  { rewrite <- Hh. unfold file_hdr, take. cbn [fst].
+    rewrite enc_ints_chunks.
+    - apply firstn_all2. rewrite firstn_length. unfold hdr_bytes, zlen in *. lia.
+    - rewrite firstn_length. unfold hdr_bytes, zlen in *. lia.
+    - apply Forall_firstn. assumption. }
+  assert (E1 : enc_ints 8 (file_sizes L b) = firstn (Z.to_nat (sizes_bytes L)) b1).
+  { unfold file_sizes, take. cbn [fst snd]. fold b1.
+    rewrite enc_ints_chunks.
+    - apply firstn_all2. rewrite firstn_length. unfold sizes_bytes, zlen in *. lia.
+    - rewrite firstn_length. unfold sizes_bytes, zlen in *. lia.
+    - apply Forall_firstn. apply Forall_skipn. assumption. }
+  subst m. unfold encode. cbn [m_sizes m_structs m_arrays].
+  rewrite E0, E1, E3, E2. unfold r2. rewrite firstn_skipn. unfold b1. apply firstn_skipn.
 Qed.
 
 (* ================================================================== witness file for an unchecked derived size *)
